@@ -115,7 +115,7 @@ def run(repo, rep):
     for fi in [repo.func('dimsemessages', 'DIMSEMessage.encode'), repo.func('dimsemessages', 'DIMSEMessage.set_length'),
                repo.func('fsm', 'DIMSEDecoder.process')]:
         rep.analysed(fi)
-        for n in ast.walk(fi.node):
+        for n in [x for hf in repo.helper_closure(fi) for x in ast.walk(hf.node)]:
             if isinstance(n, ast.Call) and norm(n.func) in ('dsutils.encode', 'dsutils.encode_element', 'dsutils.decode'):
                 a0 = norm(n.args[0]) if n.args else ''
                 if 'command_set' in a0 or fi.name == 'set_length':
@@ -280,6 +280,10 @@ def run(repo, rep):
     # on every path the sum must be stored into element (0000,0000) (aliases of the element are followed)
     c2 = SymClient(repo, sl, event_of=lambda *a: None, hierarchy=hier, store_event=lambda t: t.endswith('.value'))
     fin2 = c2.final_states(c2.run(empty_state()))
+    import re as _re
+    stored_terms = [e.args[0] for s2, how2 in fin2 if not how2.startswith('raise') for e in s2.trail
+                    if e.kind == 'store' and e.callee.startswith('self.command_set[') and e.callee.endswith('.value')]
+    folded = [t for t in stored_terms if _re.match(r"^AUG_\w+\(0, 'Add', len\(.*encode_element\(", t)]
     for s2, how2 in fin2:
         if how2.startswith('raise'):
             continue
@@ -288,6 +292,8 @@ def run(repo, rep):
         if not st_:
             probs.append('a path through set_length leaves (0000,0000) as it was [%s]: a length computed for an earlier send '
                          'goes out again after the message was modified' % (' '.join(s2.conds) or 'no store found'))
+        elif st_[-1].args[0] in folded or (st_[-1].args[0] == '0' and folded):
+            pass     # an accumulation loop: 0 + the lengths added per element (0 on the path where nothing was added)
         elif not st_[-1].args[0].startswith('sum('):
             probs.append('(0000,0000) is set to %s, not to the sum of the element lengths' % st_[-1].args[0])
     if 'encode_element' not in norm(sl.node):
